@@ -29,6 +29,9 @@ pub struct Case {
     /// selected per-mille before cutting — the valid `cat a.bgz b.bgz` shape
     #[serde(default)]
     pub empty_member: Option<u16>,
+    /// BGZF based files: re-cut the payload into blocks at arbitrary byte offsets before cutting
+    #[serde(default)]
+    pub reframe: Option<u32>,
 }
 
 pub const DRIVERS: &[&str] = &["bgzf", "bam", "bam-eager", "bam-raw", "sam.gz", "vcf.gz", "bcf", "bcf-raw", "cram", "bai", "csi", "tabix", "gzi", "fai", "crai"];
@@ -187,6 +190,10 @@ fn check(drv: &dyn Driver, c: &Case) -> Verdict {
         Ok(b) => b,
         Err(e) => return fail1(format!("c13.baseline-write-error:{name}"), format!("writing the generated document failed: {e}")),
     };
+    let file = match (drv.is_bgzf(), c.reframe) {
+        (true, Some(seed)) => bgzf_walk::reframed(&file, seed).unwrap_or(file),
+        _ => file,
+    };
     let file = match (drv.is_bgzf(), c.empty_member) {
         (true, Some(sel)) => bgzf_walk::with_empty_member(&file, sel).unwrap_or(file),
         _ => file,
@@ -316,7 +323,7 @@ pub fn property() -> Property {
                     } else {
                         d.doc(tier)
                     };
-                    (doc, any::<u32>(), proptest::option::weighted(0.25, 0u16..=1000)).prop_map(|(doc, sample_seed, empty_member)| Case { doc, sample_seed, only_cut: None, empty_member }).boxed()
+                    (doc, any::<u32>(), proptest::option::weighted(0.25, 0u16..=1000), proptest::option::weighted(0.2, any::<u32>())).prop_map(|(doc, sample_seed, empty_member, reframe)| Case { doc, sample_seed, only_cut: None, empty_member, reframe }).boxed()
                 }),
                 check: Box::new(move |c| {
                     let d = drivers::by_name(dname).unwrap();
